@@ -400,3 +400,65 @@ def parse_tables(ctx, rid, only=None):
                 got = "?" + str(r.kind)
             ctx.require(rid, got == want, "%s:%s" % (body.file, body.line), "%s::from_str(%r) = %s (expected %s)" % (adt.rsplit("::", 1)[1], name, got, want or "an error"),
                         [adt.rsplit("::", 1)[1] + "::from_str", name])
+
+
+OKP_PREFIX = {"Ed25519": "302a300506032b6570032100", "Ed448": "3043300506032b6571033a00"}         # RFC 8410 SubjectPublicKeyInfo headers
+
+
+def _okp_samples():
+    def raw(n, special):
+        r = bytearray((i * 37 + 11) % 256 for i in range(n))
+        for i, v in special.items():
+            r[i] = v
+        return bytes(r)
+    # Ed25519: one PEM body line that ends in '='; Ed448: two body lines, the second one starting with '+', '/', or a letter;
+    # '+' and '/' inside lines
+    return [("Ed25519", raw(32, {0: 0xfb, 1: 0xff, 2: 0xbf, 31: 0xff})), ("Ed25519", raw(32, {})), ("Ed448", raw(57, {36: 0xf8})),
+            ("Ed448", raw(57, {36: 0xfc, 37: 0x3f, 0: 0xff, 1: 0xff, 2: 0xfe})), ("Ed448", raw(57, {36: 0xfb, 37: 0xef, 38: 0xbe, 56: 0xff})), ("Ed448", raw(57, {}))]
+
+
+def okp_x_table(prog):
+    """the OKP `x` member EVALUATED: KeyPair::jwk_public_key / jwk_public_key_thumbprint interpreted (every KeyPair method followed)
+    with the key's public PEM answered by a concrete RFC 8410 SubjectPublicKeyInfo; expected x = base64url(raw public key) without
+    padding. [(key type, entry, got, want)] or None when something does not evaluate."""
+    import base64
+    from ..absint import Val, marker, ok, run, struct_val, success_model, variant, vstr
+    follow = lambda cs: (cs.name or "").startswith(KEYS + "::") or (cs.name or "").startswith(KT + "::") or (cs.name or "").startswith("<" + KT + " as ")
+    rows = []
+    kvs = key_variants(prog)
+    for kt, rw in _okp_samples():
+        if kt not in kvs:
+            return None
+        b64 = base64.b64encode(bytes.fromhex(OKP_PREFIX[kt]) + rw).decode()
+        pem = "-----BEGIN PUBLIC KEY-----\n" + "".join(b64[i:i + 64] + "\n" for i in range(0, len(b64), 64)) + "-----END PUBLIC KEY-----\n"
+        der = bytes.fromhex(OKP_PREFIX[kt]) + rw
+
+        def ov(cs, args):
+            n = cs.name or ""
+            if n.endswith("value::to_value") and args:
+                return ok(args[0].deref())
+            if n.endswith("::public_key_to_pem") and not n.startswith(KEYS):
+                return ok(vstr(pem))
+            if n in ("alloc::string::String::from_utf8", "core::str::converts::from_utf8", "alloc::string::String::from_utf8_lossy") and args and args[0].deref().k == "str":
+                return ok(args[0].deref()) if not n.endswith("lossy") else args[0].deref()
+            return None
+        for entry in ("jwk_public_key", "jwk_public_key_thumbprint"):
+            b = prog.body(KEYS + "::" + entry)
+            if b is None:
+                return None
+            kp = struct_val(prog, KEYS, {"key_type": variant(KT, kt), "inner_key": marker("PKEY")})
+            try:
+                r = run(b, {1: Val("ref", kp)}, success_model(b, ov), max_steps=80000, follow=follow)
+            except Exception:
+                return None
+            if r.kind != "return":
+                return None
+            x = None
+            for c, a, res in r.calls:
+                n = c.name or ""
+                if n.endswith("::insert") and "serde_json" in n and len(a) > 2 and a[1].deref().k == "str" and a[1].deref().v == "x":
+                    x = a[2].deref()
+            if x is None or x.k != "str":
+                return None
+            rows.append((kt, entry, x.v, base64.urlsafe_b64encode(rw).decode().rstrip("=")))
+    return rows
